@@ -147,6 +147,13 @@ def gen_case(rng):
         if "order" in cd and cd["order"].get("type") == "opposing_insertion":
             cd["order"]["insertion_id"] = rng.choice([i.get("id") for i in rd.get("insertions", [])] + [78])
         case["transforms"] = {"rows_dimension": rd, "columns_dimension": cd}
+    # F51 (not a finding: missing array items are not evidenced in payloads): the column index is undefined when an
+    # array item is flagged missing, and so is a sort by it
+    if any(v.is_array and any(it.get("missing") for it in v.items) for v in vars_[-2:]):
+        for d in case["transforms"].values():
+            o = d.get("order") if isinstance(d, dict) else None
+            if isinstance(o, dict) and o.get("measure") == "col_index":
+                o["measure"] = "col_percent"
     # numeric measures on some cases
     if rng.random() < 0.35:
         tot = 1
